@@ -10,6 +10,7 @@ module would reject (struct.error -> 5xx) or silently truncate shows up as a fai
 import ast
 import z3
 from ..vals import *          # noqa: F401,F403
+from ..engine import PyRaise
 
 CODES = {'B': (1, False), 'H': (2, False), 'I': (4, False), 'Q': (8, False),
          'b': (1, True), 'h': (2, True), 'i': (4, True), 'q': (8, True)}
@@ -280,3 +281,88 @@ class BitLen:
         if isinstance(op, ast.LtE):
             return ax < 2 ** other
         raise Unsupported('bit_length comparison operator')
+
+
+# ----------------------------------------------------------------------------- the `bitstring` package (third party)
+class BitArrayModel:
+    """bitstring.BitArray(): bit fields appended most-significant first; .bytes needs a whole number of bytes"""
+
+    def __init__(self):
+        self.fields = []            # (nbits, value term)
+
+    def truthy(self):
+        return True
+
+    def method(self, eng, name, args, kwargs, e):
+        if name == 'append' and isinstance(args[0], tuple) and args[0] and args[0][0] == '__bits__':
+            self.fields.append(args[0][1:])
+            return None
+        raise Unsupported(f'BitArray.{name}')
+
+    def getattr(self, eng, attr):
+        if attr == 'bytes':
+            total = sum(n for n, _ in self.fields)
+            if total % 8:
+                raise PyRaise('InterpretError')       # bitstring: cannot interpret as bytes unambiguously
+            u, left = z3.IntVal(0), total
+            for n, v in self.fields:
+                left -= n
+                u = u + zint(v) * (2 ** left)
+            return Packed(total // 8, z3.simplify(u))
+        raise Unsupported(f'BitArray.{attr}')
+
+
+def bits_ctor(eng, e, a, kw):
+    """bitstring.Bits(uint=value, length=size): the value must fit (bitstring raises CreationError otherwise)"""
+    if set(kw) != {'uint', 'length'} or not isinstance(kw['length'], int):
+        raise Unsupported('bitstring.Bits form')
+    v = zint(eng.num(kw['uint'], e))
+    eng.oblige('safety', f'range:bits({kw["length"]})', z3.And(v >= 0, v < 2 ** kw['length']))
+    return ('__bits__', kw['length'], v)
+
+
+class BitStreamModel:
+    """bitstring.ConstBitStream(bytes=data): read('bool' | 'uint:n' | 'bytes:n') from the current bit position"""
+
+    def __init__(self, data):
+        if isinstance(data, bytes):
+            data = Packed(len(data), z3.IntVal(int.from_bytes(data, 'big')))
+        self.data, self.pos = data, 0
+
+    def getattr(self, eng, attr):
+        if attr in ('bitpos', 'pos'):
+            return self.pos
+        if attr == 'bytepos':
+            if self.pos % 8:
+                raise PyRaise('ByteAlignError')
+            return self.pos // 8
+        raise Unsupported(f'ConstBitStream.{attr}')
+
+    def take(self, eng, n):
+        total = 8 * self.data.n
+        if self.pos + n > total:
+            raise PyRaise('ReadError')
+        left = total - self.pos - n
+        self.pos += n
+        return z3.simplify(pymod(floordiv(zint(self.data.u), z3.IntVal(2 ** left)), z3.IntVal(2 ** n)))
+
+    def method(self, eng, name, args, kwargs, e):
+        if name != 'read' or not isinstance(args[0], str):
+            raise Unsupported(f'ConstBitStream.{name}')
+        tok = args[0]
+        if tok == 'bool':
+            return self.take(eng, 1) != 0
+        kind, _, n = tok.partition(':')
+        if kind == 'uint' and n.isdigit():
+            v = self.take(eng, int(n))
+            return v.as_long() if z3.is_int_value(v) else v
+        if kind == 'bytes' and n.isdigit():
+            return Packed(int(n), self.take(eng, 8 * int(n)))
+        raise Unsupported(f'ConstBitStream.read({tok!r})')
+
+
+BITSTRING_MODELS = {
+    'bitstring.BitArray': lambda eng, e, a, kw: BitArrayModel(),
+    'bitstring.Bits': bits_ctor,
+    'bitstring.ConstBitStream': lambda eng, e, a, kw: BitStreamModel(kw['bytes']),
+}
